@@ -20,8 +20,8 @@ def generate(tier, seed):
         "cases": cases,
         "exhaustive": False,
         "rule": ("threads in {2,4,8,16} x {Enforcer, CachedEnforcer} x {no writer, writer applying a 10-step history under an outer RwLock} x "
-                 "{no handle thread, a thread reading through get_role_manager(), a thread reading AND writing unrelated links through it}; every thread issues %d requests drawn from the 20-request cross "
-                 "product in a seeded order; each decision must equal the serial decision of some prefix state, the final state must be the serial end "
+                 "{no handle thread, a thread reading through get_role_manager(), a thread reading AND writing unrelated links through it}; every thread issues %d requests drawn, in a seeded order, from the 20-request cross "
+                 "product asked plainly and under a hand-assembled context selecting a second matcher (40 distinct questions); each decision must equal the serial decision of some prefix state, the final state must be the serial end "
                  "state, and all threads must finish within the watchdog bound. non-trivial = a writer or a handle thread runs concurrently" % iters),
         "distribution": {"iterations_per_thread": iters, "configurations": len(cases)},
     }
